@@ -26,8 +26,10 @@ META = dict(
                "under QF_IDL/QF_RDL handles every accepted atom correctly (c29_reject_or_correct). On the faithful model of the "
                "release build the property is REFUTED: dl_parse_refuted / dl_parse_refuted_three (2x-y<=0, x+z-y<=0 are read as other "
                "constraints), dl_wrong_sat_witness (x+y<=1, x>=1, y>=1 is unsatisfiable but its parse is a satisfiable graph), "
-               "c29_reject_or_correct_refuted (the front end accepts these atoms under QF_IDL). The witnesses are replayed on the "
-               "binary on every run (known finding while the tree is unrepaired). Per run: the extracted parser is compared exactly "
+               "c29_reject_or_correct_refuted (the front end accepts these atoms under QF_IDL). These refutations concern the UNREPAIRED "
+               "parser (history since /repo commit 1aceccd); the check reads off the witness atom which parser the tree has and ties the "
+               "tree to that variant: with the repaired (strict) parser the applicable theorem is c29_strict_reject_or_correct and the "
+               "witnesses, replayed on the binary on every run, must be answered with (error ...). Per run: the extracted parser is compared exactly "
                "with parseRef of the working tree on generated atoms (both sorts, both child orders of products), and generated "
                "scripts of every out-of-fragment class (sums, scaled variables, three/four variables, equalities and disequalities of "
                "those under QF_IDL/QF_RDL; arithmetic under QF_UF; products, division/div/mod by variables, Int/Real mixing, "
